@@ -46,6 +46,6 @@ C20_OK(e) ==
   /\ AliveOf(p) = s.alive /\ p.tgt = s.tgt /\ p.par = s.par /\ p.ch = s.ch /\ p.reads = s.reads /\ e.exc = s.exc
   /\ \A n \in s.alive: p.tgt[n] # Nil => p.reads[n] = p.reads[p.tgt[n]]
 TInit == l = 1
-TNext == l <= Len(Trace) /\ PrintT(<<"J", l, Trace[l].id, IF C20_OK(Trace[l]) THEN {} ELSE {"C20"}>>) /\ l' = l + 1
+TNext == l <= Len(Trace) /\ PrintT(ToString(<<"J", l, Trace[l].id, IF C20_OK(Trace[l]) THEN {} ELSE {"C20"}>>)) /\ l' = l + 1
 Accepted == TLCGet("stats").diameter - 1 = Len(Trace)
 =============================================================================
